@@ -70,6 +70,21 @@ impl DetectProp for C09 {
         let mut s = Sett::default();
         s.incl = vec!["ascii".into(), "utf-8".into()];
         v.push(Case { bytes: b, sett: s, tag: "large-mixed-filtered".into() });
+        // > 1 MB of ASCII with a single non-ASCII byte beyond byte 500,000, outside the sampled windows: `ascii`
+        // fails at the very end of its probe, the pages that share its decoder must not inherit that verdict
+        {
+            let mut b: Vec<u8> = std::iter::repeat(*b"The quick brown fox jumps over the lazy dog, over and over again. ").take(1_200_000 / 66 + 1).flatten().collect();
+            b.truncate(1_200_000);
+            let pos = 700_000 + rng.below(1000);
+            b[pos] = 0xe9;
+            let mut s = Sett::default();
+            s.fb = false;
+            v.push(Case { bytes: b.clone(), sett: s, tag: "nomodel:large-ascii-one-high-byte".into() });
+            let mut s = Sett::default();
+            s.fb = false;
+            s.incl = vec!["ascii".into(), "windows-1252".into(), "iso-8859-1".into(), "iso-8859-15".into(), "utf-8".into()];
+            v.push(Case { bytes: b, sett: s, tag: "large-ascii-one-high-byte-filtered".into() });
+        }
         if thorough {
             let mut s = Sett::default();
             s.steps = 3;
